@@ -454,6 +454,16 @@ def confirm(v, resp):
     rt = o['rt']
     if rt is not None and not rt.get('ok'):
         return 'built PURL prints %r, which the parser refuses with %s' % (hx(o['disp']).decode('utf8', 'replace'), rt.get('err'))
+    back = (rt or {}).get('back')
+    if back:
+        for fld in ('type', 'name', 'ver'):
+            if back[fld] != o[fld]:
+                return '%s %r reads back from %r as %r' % (fld, o[fld] and hx(o[fld]), hx(o['disp']).decode('utf8', 'replace'), back[fld] and hx(back[fld]))
+        hn = lambda x: hx(x) if x is not None else None
+        if norm(hn(back['ns']), False) != norm(hn(o['ns']), False) or norm(hn(back['sub']), True) != norm(hn(o['sub']), True):
+            return 'namespace / subpath of %r read back as %r / %r' % (hx(o['disp']).decode('utf8', 'replace'), back['ns'] and hx(back['ns']), back['sub'] and hx(back['sub']))
+        if back['quals'] != o['quals']:
+            return 'qualifiers of %r read back as %r' % (hx(o['disp']).decode('utf8', 'replace'), [(hx(k), hx(x)) for k, x in back['quals']])
     return None
 
 
